@@ -783,7 +783,14 @@ impl<'a> PGen<'a> {
                     (Expr::bin(BinOp::Rem, v, Expr::lit(4)), true)
                 }
             }
-            4 => (Expr::Var(self.outs[ch.upto(self.outs.len())].clone()), true),
+            4 => {
+                let n = self.outs[ch.upto(self.outs.len())].clone();
+                // a variable of the same name takes precedence at run time: it must be small too
+                match vars.iter().find(|v| v.0 == n) {
+                    Some((_, false)) => (Expr::bin(BinOp::And, Expr::Var(n), Expr::lit(3)), true),
+                    _ => (Expr::Var(n), true),
+                }
+            }
             _ => {
                 let v = Expr::Var(small[ch.upto(small.len())].0.clone());
                 if ch.chance(1, 2) {
